@@ -49,10 +49,36 @@ def forbid_after(ck, rule, fn, site_pred, marker_pred, name, mname, min_sites=1,
     return ss
 
 
+def bool_locals(fn):
+    return sorted({ev["d"] for b in fn.blocks.values() for ev in b["ev"] if ev.get("e") == "decl" and "bool" in ev.get("t", "")})
+
+
+def funnel(leaf_of_env):
+    """Flow `classify` hook: a bool local defined by a short-circuit expression (`ok = A && B`) takes the value implied by the atoms just evaluated for it"""
+    def classify(d, rhs, env):
+        t = E.strip(rhs)
+        if not isinstance(t, dict) or not (t.get("k") == "bin" and t.get("op") in ("&&", "||") or t.get("k") == "un" and t.get("op") == "!"):
+            return None
+        r = E.eval3(rhs, leaf_of_env(env))
+        return ("c", int(r)) if r is not None else None
+    return classify
+
+
 def require_any(ck, rule, fn, pred, alts, name, **kw):
-    """ck.require_any plus unit propagation over the tracked atoms: when clang merges the operands of a short-circuit condition into one
-    terminator (temporaries in the condition), an edge of `A || B` with A known false still establishes B (and infeasible edges are pruned)"""
+    """ck.require_any plus (a) unit propagation over the tracked atoms: when clang merges the operands of a short-circuit condition into one
+    terminator (temporaries in the condition), an edge of `A || B` with A known false still establishes B (and infeasible edges are pruned);
+    (b) bool locals that funnel the tracked atoms (`const bool ok = A && B; if (!ok)`) are constant-propagated"""
     names = {"a%d" % i: a[0] for i, a in enumerate(alts) if a[0] != "P"}
+
+    def env_leaf(env):
+        def ev(t):
+            for n, m in names.items():
+                if m(t):
+                    return env.get("@" + n)
+            return None
+        return ev
+    if "tracked" not in kw and bool_locals(fn):
+        kw["tracked"], kw["classify"] = bool_locals(fn), funnel(env_leaf)
 
     def on_edge(b, lab, imp, env, facts):
         cond, val = b["term"]["c"], lab == "T"
@@ -127,7 +153,8 @@ def run(ck):
              (E.m_calls(RP + "parseUriField"), False), (E.m_calls(TOK + "atEnd"), False)]
     for m, v in gates:
         ck.require_response("Q1.failed-gate-no-commit", prfl, m, v, ret_const(lambda c: c <= 0), "return<=0", until=buf_w,
-                            why="(a rejected or incomplete request-line would still be consumed/accepted)")
+                            why="(a rejected or incomplete request-line would still be consumed/accepted)",
+                            tracked=bool_locals(prfl), classify=funnel(lambda env, m=m, v=v: (lambda t: v if m(t) else None)))
     markers = {n: ev_call(RP + n) for n in ("parseMethodField", "skipTrailingCrs", "parseHttpVersionField", "parseUriField")}
     markers["atEnd"] = ev_call(TOK + "atEnd")
     markers["lf-found"] = ev_call(TOK + "skip", arg={0: E.m_const(10)})
@@ -218,9 +245,17 @@ def run(ck):
     fl = ck.flow(sg, track_atoms={"lookahead": longer})
     ck.need(ck.trigger_edges(sg, longer, False), "C21: lookahead test in skipGarbageLines vanished")
     short = [s for s in ck.sites(fl, ev_exit(("ret", "fall")), "exit", 1) if s.tracked("lookahead") is False]
-    fl2 = ck.flow(dp, track_atoms={"longer": longer, "cr": at(0, 13)})
+    relaxed_m = E.m_is_mem("relaxed_header_parser")
+    len1 = E.M(lambda t: E.strip(t).get("k") == "bin" and E.strip(t).get("op") == "==" and "SBuf::length" in E.mentions(E.strip(t)["l"]) and E.const(E.strip(t)["r"]) == 1, "buf_.length() == 1")
+    # in strict mode skipGarbageLines must have no lookahead-dependent exit at all, otherwise the `relaxed false` alternative below is not available
+    fl_strict = ck.flow(sg, assume=[(relaxed_m, False)], track_atoms={"lookahead": longer})
+    strict_short = [s for s in fl_strict.find(ev_exit(("ret", "fall"))) if s.tracked("lookahead") is False]
+    fl2 = ck.flow(dp, track_atoms={"longer": longer, "cr": at(0, 13), "relaxed": relaxed_m, "len1": len1})
     for s in ck.sites(fl2, stage_write(st, "HTTP_PARSE_FIRST"), "parsingStage_=FIRST", 1):
-        if not short or s.tracked("longer") is True or s.tracked("cr") is False:
+        not_lone_cr = (s.tracked("longer") is True or s.tracked("cr") is False or
+                       (s.tracked("relaxed") is False and not strict_short) or
+                       (s.tracked("len1") is False and s.has(E.m_calls("SBuf::isEmpty"), False)))
+        if not short or not_lone_cr:
             ck.ok("Q5.short-lookahead-is-final", s.where(), "HTTP_PARSE_FIRST is committed only when the garbage-line decision did not depend on missing bytes")
         else:
             ck.violation("Q5.short-lookahead-is-final", "Q5|doParse|HTTP_PARSE_FIRST|after-short-lookahead", s.where(),
